@@ -809,14 +809,17 @@ def getChar (r : List (Field × Val)) (f : Field) : Option Char :=
 mutual
 def buildCalls : Nat → Mode → List Call → Option (List Node)
   | 0, _, _ => none
-  | _ + 1, _, [] => some []
-  | f + 1, m, c :: r =>
-    match buildCall f m c with
-    | some a =>
-      match buildCalls f m r with
-      | some b => some (a ++ b)
+  | f + 1, m, cs =>
+    match cs with
+    | [] => some []
+    | c :: r =>
+      match buildCall f m c with
+      | some a =>
+        match buildCalls f m r with
+        | some b => some (a ++ b)
+        | none => none
       | none => none
-    | none => none
+/-- `convert_call_to_*_elem` + `Args::build`: resolve the function and its arguments. -/
 def buildCall : Nat → Mode → Call → Option (List Node)
   | 0, _, _ => none
   | f + 1, m, .mk name args =>
@@ -826,82 +829,85 @@ def buildCall : Nat → Mode → Call → Option (List Node)
       if !allowed m fn then none else
       match resolve fn.fields fn.fields false args with
       | none => none
-      | some r =>
-        if !nodupFields r then none else
-        match fn with
-        | .chars =>
-          match getStr r .content, getInt r .font with
-          | some s, some font => some ((s.getD []).map (Node.char · (toU32 font)))
-          | _, _ => none
-        | .glue =>
-          match getDim r .width, getStretch r .stretch, getStretch r .shrink with
-          | some w, some st, some sh => some [.glue 0 w st.1 st.2 sh.1 sh.2]
-          | _, _, _ => none
-        | .penalty =>
-          match getInt r .value with
-          | some p => some [.penalty p]
-          | none => none
-        | .kern =>
-          match getDim r .width with
-          | some w => some [.kern 0 w]
-          | none => none
-        | .hbox =>
-          match getDim r .height, getDim r .width, getDim r .depth, getDim r .shift_amount,
-            getRatio r .glue_ratio, getOrder r .glue_order, getList r .content with
-          | some h, some w, some d, some s, some g, some o, some cs =>
-            match buildCalls f .H cs with
-            | some l => some [.hbox h w d s g o l]
-            | none => none
-          | _, _, _, _, _, _, _ => none
-        | .lig =>
-          match getChar r .char, getStr r .original_chars, getInt r .font,
-            getBool r .includes_left_boundary, getBool r .includes_right_boundary with
-          | some c, some o, some font, some lb, some rb =>
-            some [.lig c (o.getD []) (toU32 font) lb rb]
-          | _, _, _, _, _ => none
-        | .vbox =>
-          match getDim r .height, getDim r .width, getDim r .depth, getDim r .shift_amount,
-            getList r .content with
-          | some h, some w, some d, some s, some cs =>
-            match buildCalls f .V cs with
-            | some l => some [.vbox h w d s false l]
-            | none => none
-          | _, _, _, _, _ => none
-        | .disc =>
-          match getList r .pre_break, getList r .post_break, getInt r .replace_count with
-          | some pre, some post, some rc =>
-            match buildCalls f .D pre, buildCalls f .D post with
-            | some a, some b => some [.disc a b (toU32 rc)]
-            | _, _ => none
-          | _, _, _ => none
-        | .rule =>
-          match getRunning r .height, getRunning r .width, getRunning r .depth with
-          | some h, some w, some d => some [.rule h w d]
-          | _, _, _ => none
-        | .mark =>
-          match getInt r .dummy with
-          | some _ => some [.mark 0]
-          | none => none
-        | .adjust =>
-          match getList r .content with
-          | some cs =>
-            match buildCalls f .V cs with
-            | some l => some [.adjust l]
-            | none => none
-          | none => none
-        | .insertion =>
-          match getInt r .box_number, getDim r .height, getDim r .split_max_depth,
-            getDim r .split_top_skip_width, getStretch r .split_top_skip_stretch,
-            getStretch r .split_top_skip_shrink, getInt r .float_penalty, getList r .vbox with
-          | some b, some h, some md, some w, some st, some sh, some fp, some cs =>
-            match buildCalls f .V cs with
-            | some l => some [.ins (toU8 b) h md w st.1 st.2 sh.1 sh.2 (toU32 fp) l]
-            | none => none
-          | _, _, _, _, _, _, _, _ => none
-        | .math =>
-          match getStr r .kind with
-          | some k => some [.math (decide (k.getD [] = ['a','f','t','e','r']))]
-          | none => none
+      | some r => if !nodupFields r then none else buildFn f fn r
+/-- The typed fields of each function (`Arg::assign` casts) and `ToBoxworks`. -/
+def buildFn : Nat → Fn → List (Field × Val) → Option (List Node)
+  | 0, _, _ => none
+  | f + 1, fn, r =>
+    match fn with
+    | .chars =>
+      match getStr r .content, getInt r .font with
+      | some s, some font => some ((s.getD []).map (Node.char · (toU32 font)))
+      | _, _ => none
+    | .glue =>
+      match getDim r .width, getStretch r .stretch, getStretch r .shrink with
+      | some w, some st, some sh => some [.glue 0 w st.1 st.2 sh.1 sh.2]
+      | _, _, _ => none
+    | .penalty =>
+      match getInt r .value with
+      | some p => some [.penalty p]
+      | none => none
+    | .kern =>
+      match getDim r .width with
+      | some w => some [.kern 0 w]
+      | none => none
+    | .hbox =>
+      match getDim r .height, getDim r .width, getDim r .depth, getDim r .shift_amount,
+        getRatio r .glue_ratio, getOrder r .glue_order, getList r .content with
+      | some h, some w, some d, some s, some g, some o, some cs =>
+        match buildCalls f .H cs with
+        | some l => some [.hbox h w d s g o l]
+        | none => none
+      | _, _, _, _, _, _, _ => none
+    | .lig =>
+      match getChar r .char, getStr r .original_chars, getInt r .font,
+        getBool r .includes_left_boundary, getBool r .includes_right_boundary with
+      | some c, some o, some font, some lb, some rb =>
+        some [.lig c (o.getD []) (toU32 font) lb rb]
+      | _, _, _, _, _ => none
+    | .vbox =>
+      match getDim r .height, getDim r .width, getDim r .depth, getDim r .shift_amount,
+        getList r .content with
+      | some h, some w, some d, some s, some cs =>
+        match buildCalls f .V cs with
+        | some l => some [.vbox h w d s false l]
+        | none => none
+      | _, _, _, _, _ => none
+    | .disc =>
+      match getList r .pre_break, getList r .post_break, getInt r .replace_count with
+      | some pre, some post, some rc =>
+        match buildCalls f .D pre, buildCalls f .D post with
+        | some a, some b => some [.disc a b (toU32 rc)]
+        | _, _ => none
+      | _, _, _ => none
+    | .rule =>
+      match getRunning r .height, getRunning r .width, getRunning r .depth with
+      | some h, some w, some d => some [.rule h w d]
+      | _, _, _ => none
+    | .mark =>
+      match getInt r .dummy with
+      | some _ => some [.mark 0]
+      | none => none
+    | .adjust =>
+      match getList r .content with
+      | some cs =>
+        match buildCalls f .V cs with
+        | some l => some [.adjust l]
+        | none => none
+      | none => none
+    | .insertion =>
+      match getInt r .box_number, getDim r .height, getDim r .split_max_depth,
+        getDim r .split_top_skip_width, getStretch r .split_top_skip_stretch,
+        getStretch r .split_top_skip_shrink, getInt r .float_penalty, getList r .vbox with
+      | some b, some h, some md, some w, some st, some sh, some fp, some cs =>
+        match buildCalls f .V cs with
+        | some l => some [.ins (toU8 b) h md w st.1 st.2 sh.1 sh.2 (toU32 fp) l]
+        | none => none
+      | _, _, _, _, _, _, _, _ => none
+    | .math =>
+      match getStr r .kind with
+      | some k => some [.math (decide (k.getD [] = ['a','f','t','e','r']))]
+      | none => none
 end
 
 mutual
@@ -920,7 +926,7 @@ def callsSize : List Call → Nat
   | c :: r => callSize c + callsSize r + 1
 end
 
-def build (m : Mode) (cs : List Call) : Option (List Node) := buildCalls (callsSize cs + 1) m cs
+def build (m : Mode) (cs : List Call) : Option (List Node) := buildCalls (2 * callsSize cs + 1) m cs
 
 /-- Token level `parse_horizontal_list` (m = H) / vertical counterpart. -/
 def parseToks (m : Mode) (toks : List BTok) : Option (List Node) :=
